@@ -1532,6 +1532,12 @@ def constrain_sum_bounded(x: np.array, s: float, lb: np.array, ub: np.array) -> 
     """
     tolerance = 1e-6
 
+    if s == 0:
+        # Nothing to distribute - the all-zero allocation is the answer if the bounds admit it (and avoids dividing by zero below)
+        if np.all(np.asarray(lb) <= 0) and np.all(np.asarray(ub) >= 0):
+            return np.zeros(len(x))
+        raise FailedConstraint()
+
     # Normalize values
     x0_scaled = x / (x.sum() or 1)  # Normalize the initial values, unless they sum to 0 (i.e., they are all zero)
     lb_scaled = lb / s
